@@ -68,18 +68,29 @@ type Engine struct {
 	Axioms    []smt.T // instantiated global axioms (from //@ axiom and string literals)
 	Errors    []string
 
-	fresh    int
-	litSig   *types.Signature // signature of the function literal being executed
-	strlits  map[string]smt.T
-	typeIDs  map[string]int
-	pathN    int
-	cur      *Fn
-	curCon   *contract.Func
-	entry    *State
-	loopOrd  map[ast.Stmt]int
-	retOrd   map[*ast.ReturnStmt]int
-	fieldIdx map[string]int
-	TraceOn bool
+	fresh         int
+	litSig        *types.Signature            // signature of the function literal being executed
+	finals        map[string]Val              // values of mutated arguments after the call being applied
+	ghostMod      map[string]bool             // ghost state assigned by callees (over-approximated per function)
+	fieldW        map[int]bool                // field indices written in the function (loop frames)
+	fieldWObj     map[int]map[*types.Var]bool // fid -> variables whose objects are the only ones written at fid (empty: any object)
+	inPureEnsures bool
+	wholeAssigned map[*types.Var]bool // variables assigned as a whole somewhere in the function
+	fieldWAll     bool
+	autoPure      map[string]*contract.Func
+	fids          map[string]int
+	// UncontractedPure lists standard-library calls treated as uninterpreted pure functions.
+	UncontractedPure []string
+	strlits          map[string]smt.T
+	typeIDs          map[string]int
+	pathN            int
+	cur              *Fn
+	curCon           *contract.Func
+	entry            *State
+	loopOrd          map[ast.Stmt]int
+	retOrd           map[*ast.ReturnStmt]int
+	fieldIdx         map[string]int
+	TraceOn          bool
 	// FreshCounter numbers bound variables minted by client spec functions.
 	FreshCounter int
 	// TypeTermHook lets a client choose the constant standing for a Go type.
@@ -256,8 +267,8 @@ func (s *State) Assume(t smt.T) {
 	s.pc = append(s.pc, t)
 }
 
-func (s *State) Heap() smt.T          { return s.heap }
-func (s *State) SetHeap(h smt.T)      { s.heap = h }
+func (s *State) Heap() smt.T              { return s.heap }
+func (s *State) SetHeap(h smt.T)          { s.heap = h }
 func (s *State) SetNamed(n string, v Val) { s.named[n] = v }
 func (s *State) Named(n string) (Val, bool) {
 	v, ok := s.named[n]
@@ -394,4 +405,36 @@ func (e *Engine) CurrentKey() string {
 		return ""
 	}
 	return e.cur.Key
+}
+
+// FieldIDHook lets a client keep positional field indices for its own struct types.
+var FieldIDHook func(owner types.Type, idx int) (int, bool)
+
+// FID gives the identifier of field idx of struct type owner in f_get/f_upd.
+// Identifiers are unique per (struct type, field), so that frames stated by
+// field identifier are type-aware: a write to pkg.undefined says nothing about
+// ast.CallExpr.Fun.
+func (e *Engine) FID(owner types.Type, idx int) int {
+	if p, ok := owner.Underlying().(*types.Pointer); ok {
+		owner = p.Elem()
+	}
+	if FieldIDHook != nil {
+		if id, ok := FieldIDHook(owner, idx); ok {
+			return id
+		}
+	}
+	st, ok := owner.Underlying().(*types.Struct)
+	if !ok || idx >= st.NumFields() {
+		return idx
+	}
+	key := types.TypeString(owner, nil) + "." + st.Field(idx).Name()
+	if e.fids == nil {
+		e.fids = map[string]int{}
+	}
+	id, ok := e.fids[key]
+	if !ok {
+		id = 1000 + len(e.fids)
+		e.fids[key] = id
+	}
+	return id
 }
